@@ -128,3 +128,22 @@ Theorem C12_call_disclose_never_invoked : forall cfg lookup now d caller req opt
     opt_bool opts "disclose_me" = true -> reg_disclose r = false -> c_disclose cfg = true.
 Proof. exact call_disclose_never_invoked_proof. Qed.
 Print Assumptions C12_call_disclose_never_invoked.
+
+(** ------------------------------------------------------------------------
+    session meta events and wamp.session.get never expose transport
+    authentication data (Router/RealmClean.v): [clean_details] is what on_join
+    publishes ([join]) and what wamp.session.get answers ([meta_call])
+    ------------------------------------------------------------------------ *)
+From Nexus Require Import Router.RealmClean.
+
+Theorem C12_clean_no_transport_auth : forall cfg d td,
+  dget (clean_details cfg d) "transport" = Some (VDict td) ->
+  match dget td "auth" with Some (VDict _) => False | _ => True end.
+Proof. exact clean_no_transport_auth_proof. Qed.
+Print Assumptions C12_clean_no_transport_auth.
+
+Theorem C12_clean_keeps_other_keys : forall cfg d k,
+  c_meta_strict cfg = false -> k <> "transport" ->
+  dget (clean_details cfg d) k = dget d k.
+Proof. exact clean_keeps_other_keys_proof. Qed.
+Print Assumptions C12_clean_keeps_other_keys.
